@@ -5,16 +5,23 @@
      "keys"  table, what, keys (advertised), tags (items of the table) -> every key names an item
      "name"  module, kind, declared (platform/version the module declares), expected
      "files" pack, cfg, log, key, dcfg, dlog, module      -> FILES naming round trip
+     "connect" stack, pack, cfg, log, module, gpack, gcfg, glog -> the modules a real client loaded after
+                                                           the spa reported this naming
      "pin"   key, pinned, current ("missing" or the record) -> immutability of published layouts *)
 EXTENDS PackTables, Json, IOUtils
 Recs == ndJsonDeserialize(IOEnv.GV_RECS)
 
 ToSet(sq) == { sq[i] : i \in 1..Len(sq) }
+\* module naming of the shipped tables: <platform>, <platform>-cfg-<n>, <platform>-log-<n>
+CfgName(m, v) == m \o "-cfg-" \o ToString(v)
+LogName(m, v) == m \o "-log-" \o ToString(v)
 Verdict(r) ==
   CASE r.kind = "item"  -> IF ItemWellFormed(r) THEN "ok" ELSE WhyNot(r)
     [] r.kind = "keys"  -> IF ToSet(r.keys) \subseteq ToSet(r.tags) THEN "ok" ELSE "advertised-key-names-no-item"
     [] r.kind = "name"  -> IF r.declared = r.expected THEN "ok" ELSE "module-name-disagrees"
     [] r.kind = "files" -> IF r.dcfg = r.cfg /\ r.dlog = r.log /\ r.key = r.module THEN "ok" ELSE "files-naming"
+    [] r.kind = "connect" -> IF r.gpack = r.module /\ r.gcfg = CfgName(r.module, r.cfg) /\ r.glog = LogName(r.module, r.log)
+                             THEN "ok" ELSE "client-loads-other-modules-than-the-spa-reports"
     [] r.kind = "pin"   -> IF r.current = r.pinned THEN "ok" ELSE "published-layout-changed"
     [] OTHER -> "unknown-kind"
 Bad == { <<k, Verdict(Recs[k])>> : k \in { k \in 1..Len(Recs) : Verdict(Recs[k]) # "ok" } }
